@@ -118,11 +118,18 @@ Definition is_header_row (n : node) : bool := match nval n with TableRow true =>
 (* bytes that may precede a row on its line: blanks; quote markers when the table is inside a quote; for
    the header row (which may share its line with a list marker) also a list marker followed by a blank *)
 Definition marker_char (b : byte) : bool := beqb b x2d || beqb b x2b || beqb b x2a || beqb b x2e || beqb b x29.
+(* a digit may precede the header row only as part of an ordered list marker: digits, then . or ), then a blank *)
+Fixpoint digits_then_marker (s : bytes) : bool :=
+  match s with
+  | [] => false
+  | b :: r => if is_digit b then digits_then_marker r
+              else (beqb b x2e || beqb b x29) && match r with c :: _ => is_ws c | [] => false end
+  end.
 Fixpoint prefix_ok (in_quote header : bool) (s : bytes) : bool :=
   match s with
   | [] => true
   | b :: r =>
-    (is_ws b || (beqb b x3e && (in_quote || header)) || (header && is_digit b) ||
+    (is_ws b || (beqb b x3e && (in_quote || header)) || (header && is_digit b && digits_then_marker r) ||
      (header && marker_char b && match r with c :: _ => is_ws c | [] => false end))
     && prefix_ok in_quote header r
   end.
